@@ -1,6 +1,3 @@
 #!/bin/sh
-# The repository's pinned test suite (BASELINE.json cmd); no build tag is involved.
-cd /repo || exit 2
-for m in $(cat /w/out/gomods.txt); do
-  ( cd /repo/$m && . /w/out/goenv.sh && MF=$(gomodflag) && go test $MF -vet=off -count=1 -timeout 25m ./... ) || exit 1
-done
+# The repository's pinned test suite, exactly as in /root/.vp/BASELINE.json (no build tag is involved: the checks are static).
+for m in $(cat /w/out/gomods.txt); do MF=$(cd /repo/$m && . /w/out/goenv.sh && gomodflag); (cd /repo/$m && go test $MF -json -vet=off -count=1 -timeout 25m ./...); done
